@@ -686,7 +686,7 @@ func instrument(p *pkgInfo, f *ast.File, src []byte, simImport string) []byte {
 							assign := ""
 							switch cm := cl.Comm.(type) {
 							case *ast.SendStmt:
-								cases = append(cases, "zzsim.SendCase("+txt(cm.Chan)+", "+txt(cm.Value)+")")
+								cases = append(cases, "zzsim.SendCaseTo("+txt(cm.Chan)+").V("+txt(cm.Value)+")")
 							case *ast.ExprStmt:
 								u := unparen(cm.X).(*ast.UnaryExpr)
 								cases = append(cases, "zzsim.RecvCase("+txt(u.X)+")")
@@ -765,7 +765,7 @@ func instrument(p *pkgInfo, f *ast.File, src []byte, simImport string) []byte {
 						calledSel[sel] = true
 					}
 				}
-				rewriteCall(p, x, off, src, add, &usedSim, &rewroteSyncFunc, &rewroteTime, &rewroteRuntime)
+				replacedFun := rewriteCall(p, x, off, src, add, &usedSim, &rewroteSyncFunc, &rewroteTime, &rewroteRuntime, func(n ast.Node) string { return render(n, fn) })
 				// an atomic load that is an operand of a larger expression - n.Store(n.Load()+1),
 				// if a.Load() < b.Load() - gets a yield point right after it: race-free
 				// read-modify-write sequences inside ONE statement can be torn too
@@ -797,6 +797,12 @@ func instrument(p *pkgInfo, f *ast.File, src []byte, simImport string) []byte {
 						rep.Rewrites["yield after nested atomic load"]++
 						usedSim = true
 					}
+				}
+				if replacedFun {
+					for _, a := range x.Args {
+						walk(a, fn, api, first)
+					}
+					return false
 				}
 			case *ast.SelectorExpr:
 				// package-level functions of time / runtime used as VALUES (`var now = time.Now`,
@@ -830,7 +836,7 @@ func instrument(p *pkgInfo, f *ast.File, src []byte, simImport string) []byte {
 					// the function value and the arguments are still evaluated at the go
 					// statement (short variable declarations need no type text); constants and
 					// nil are passed through textually so that they keep their untyped nature
-					txt := func(e ast.Node) string { return string(src[off(e.Pos()):off(e.End())]) }
+					txt := func(e ast.Node) string { return render(e, fn) }
 					lhs := []string{"zzf"}
 					rhs := []string{txt(x.Call.Fun)}
 					var args []string
@@ -856,8 +862,8 @@ func instrument(p *pkgInfo, f *ast.File, src []byte, simImport string) []byte {
 					return false
 				}
 			case *ast.SendStmt:
-				add(off(x.Chan.Pos()), 0, "zzsim.Send(")
-				add(off(x.Chan.End()), off(x.Value.Pos())-off(x.Chan.End()), ", ")
+				add(off(x.Chan.Pos()), 0, "zzsim.SendTo(")
+				add(off(x.Chan.End()), off(x.Value.Pos())-off(x.Chan.End()), ").V(")
 				add(off(x.Value.End()), 0, ")")
 				rep.Rewrites["chan send"]++
 			case *ast.AssignStmt:
@@ -886,20 +892,24 @@ func instrument(p *pkgInfo, f *ast.File, src []byte, simImport string) []byte {
 				if tv, ok := p.info.Types[x.X]; ok && tv.Type != nil {
 					if _, isChan := tv.Type.Underlying().(*types.Chan); isChan {
 						ch := render(x.X, fn)
-						hdr := ""
+						// for k, zzok, zzch := RecvFirst(expr); zzok; k, zzok = Recv2(zzch) { body }
+						// - the range expression is evaluated once, `continue` runs the post
+						// statement, and the loop variable is the language's own (one per loop under
+						// go <= 1.21, one per iteration from go 1.22 on), so `j := j` in the body and
+						// the classic closure-capture bug both behave as in the original
+						hdr, pre := "", ""
 						switch {
 						case x.Key == nil:
-							hdr = " zzch := " + ch + "; ; { _, zzok := zzsim.Recv2(zzch); if !zzok { break }; "
+							hdr = " _, zzok, zzch := zzsim.RecvFirst(" + ch + "); zzok; _, zzok = zzsim.Recv2(zzch) {"
 						case x.Tok == token.DEFINE:
 							k := string(src[off(x.Key.Pos()):off(x.Key.End())])
-							hdr = " zzch := " + ch + "; ; { " + k + ", zzok := zzsim.Recv2(zzch); if !zzok { break }; "
+							hdr = " " + k + ", zzok, zzch := zzsim.RecvFirst(" + ch + "); zzok; " + k + ", zzok = zzsim.Recv2(zzch) {"
 						default:
 							k := string(src[off(x.Key.Pos()):off(x.Key.End())])
-							hdr = " zzch := " + ch + "; ; { var zzok bool; " + k + ", zzok = zzsim.Recv2(zzch); if !zzok { break }; "
+							hdr = " zzv0, zzok, zzch := zzsim.RecvFirst(" + ch + "); zzok; zzv0, zzok = zzsim.Recv2(zzch) {"
+							pre = " " + k + " = zzv0; "
 						}
-						// the body gets a block of its own: `for j := range ch { j := j; ... }` is idiomatic
-						add(off(x.For)+3, off(x.Body.Lbrace)+1-(off(x.For)+3), hdr+"{ ")
-						add(off(x.Body.Rbrace), 0, "} ")
+						add(off(x.For)+3, off(x.Body.Lbrace)+1-(off(x.For)+3), hdr+pre)
 						rep.Rewrites["range over chan"]++
 						// only the body is walked further (the header text was replaced)
 						doList(x.Body.List, fn, api, first)
@@ -981,7 +991,16 @@ func instrument(p *pkgInfo, f *ast.File, src []byte, simImport string) []byte {
 }
 
 func rewriteCall(p *pkgInfo, c *ast.CallExpr, off func(token.Pos) int, src []byte,
-	add func(o, del int, text string), usedSim, rewroteSyncFunc, rewroteTime, rewroteRuntime *bool) {
+	add0 func(o, del int, text string), usedSim, rewroteSyncFunc, rewroteTime, rewroteRuntime *bool, render func(ast.Node) string) (replacedFun bool) {
+	// an edit that replaces the function expression up to the parenthesis swallows the
+	// receiver text: the receiver is rendered (its own rewrites applied) and the caller
+	// must not walk into it again
+	add := func(o, del int, text string) {
+		if o == off(c.Fun.Pos()) && del == off(c.Lparen)+1-off(c.Fun.Pos()) {
+			replacedFun = true
+		}
+		add0(o, del, text)
+	}
 	fun := c.Fun
 	if ix, ok := fun.(*ast.IndexExpr); ok {
 		fun = ix.X
@@ -1004,7 +1023,7 @@ func rewriteCall(p *pkgInfo, c *ast.CallExpr, off func(token.Pos) int, src []byt
 			*rewroteTime = true
 		case "(*time.Timer).Stop", "(*time.Timer).Reset", "(*time.Ticker).Stop", "(*time.Ticker).Reset":
 			name := map[string]string{"(*time.Timer).Stop": "TimerStop", "(*time.Timer).Reset": "TimerReset", "(*time.Ticker).Stop": "TickerStop", "(*time.Ticker).Reset": "TickerReset"}[obj.FullName()]
-			x := string(src[off(sel.X.Pos()):off(sel.X.End())])
+			x := render(sel.X)
 			if tv, ok := p.info.Types[sel.X]; ok {
 				if _, isPtr := tv.Type.Underlying().(*types.Pointer); !isPtr {
 					x = "&(" + x + ")"
@@ -1034,11 +1053,17 @@ func rewriteCall(p *pkgInfo, c *ast.CallExpr, off func(token.Pos) int, src []byt
 	}
 	// x.Lock() / x.RLock() on a value of INTERFACE type (sync.Locker, or an interface of
 	// the library that a sync mutex satisfies): decided at run time
-	if ok && len(c.Args) == 0 && (sel.Sel.Name == "Lock" || sel.Sel.Name == "RLock") {
+	if sig, _ := func() (*types.Signature, bool) {
+		if !ok {
+			return nil, false
+		}
+		sg, isSig := obj.Type().(*types.Signature)
+		return sg, isSig
+	}(); ok && sig != nil && sig.Results().Len() == 0 && sig.Params().Len() == 0 && len(c.Args) == 0 && (sel.Sel.Name == "Lock" || sel.Sel.Name == "RLock") {
 		if tv, has := p.info.Types[sel.X]; has && tv.Type != nil {
 			if _, isIface := tv.Type.Underlying().(*types.Interface); isIface {
 				if _, isTP := tv.Type.(*types.TypeParam); !isTP {
-					add(off(c.Fun.Pos()), off(c.Lparen)+1-off(c.Fun.Pos()), "zzsim."+sel.Sel.Name+"Any("+string(src[off(sel.X.Pos()):off(sel.X.End())]))
+					add(off(c.Fun.Pos()), off(c.Lparen)+1-off(c.Fun.Pos()), "zzsim."+sel.Sel.Name+"Any("+render(sel.X))
 					rep.Rewrites[sel.Sel.Name+" (interface)"]++
 					*usedSim = true
 					return
@@ -1051,7 +1076,7 @@ func rewriteCall(p *pkgInfo, c *ast.CallExpr, off func(token.Pos) int, src []byt
 	}
 	full := obj.FullName()
 	recvText := func() string {
-		x := string(src[off(sel.X.Pos()):off(sel.X.End())])
+		x := render(sel.X)
 		// a method promoted through embedding: name the embedded field explicitly so that
 		// the wrapper receives the *sync.Mutex / *sync.RWMutex / *sync.Once itself
 		if s, ok := p.info.Selections[sel]; ok && len(s.Index()) > 1 {
@@ -1121,6 +1146,7 @@ func rewriteCall(p *pkgInfo, c *ast.CallExpr, off func(token.Pos) int, src []byt
 		*usedSim = true
 		*rewroteSyncFunc = true
 	}
+	return replacedFun
 }
 
 func unparen(e ast.Expr) ast.Expr {
